@@ -174,9 +174,15 @@ impl ObjectStore for ScriptedObjectStore {
         Box::pin(async move {
             self.gate().await;
             let (kind, id) = classify(key);
-            let class = format!("put_{kind}");
+            // "put_tmp" is the write of the new manifest, whichever key an implementation writes it to
+            let class = if kind == "man" { "put_tmp".to_string() } else { format!("put_{kind}") };
             let fault = self.fault_for(&class);
             let mut ev = json!({"a": "call", "who": self.actor, "op": "put", "key": key, "kind": kind, "id": id});
+            if kind == "man" {
+                // a manifest written in place becomes current at once: log what it lists
+                let segs: Vec<u64> = serde_json::from_slice::<Manifest>(data).ok().map(|m| m.segments.iter().map(|s| s.id).collect()).unwrap_or_default();
+                ev["segs"] = json!(segs);
+            }
             let res = match fault.as_deref() {
                 None => {
                     self.inner.lock().unwrap().objs.insert(key.to_string(), data.to_vec());
